@@ -518,3 +518,29 @@ Proof.
   apply pdist_relabel; [|exact Hdist].
   intros a b ps Hin. destruct (Hcl a b ps Hin) as [Ha Hb]. split; apply ahas_In; assumption.
 Qed.
+
+(* ---------- extract_graph in ANY reachable store (cross-graph links left by merge_nodes included) returns
+   exactly the graph's own nodes and the links with BOTH ends in the graph ---------- *)
+Theorem extract_exact_all ops g :
+  let G := sg (srun ops init_store) in
+  s_extract G g = match fst (view G g) with
+                  | [] => None
+                  | _ => Some (mkI (fst (view G g)) (snd (view G g)))
+                  end.
+Proof. cbv zeta. apply extract_is_view. apply (SInv_run ops init_store SInv_init). Qed.
+
+(* non-vacuity: a store holding a link from g0's node 1 to g1's node 3 *)
+Definition ex_cross : list op :=
+  [OAddNode 10 20 30 None; OAddNode 11 20 30 None; OAddNode 11 21 31 None; OAddLink 11 20 40 21 None;
+   OMerge 10 20 11 None].
+
+Lemma cross_link_nonvacuous :
+  let s := srun ex_cross init_store in
+  forallb wf_op ex_cross = true /\
+  ge (sg s) = [(1, 3, [(k_class, PV 40)])] /\                         (* the cross-graph link *)
+  view (sg s) 10 = ([(1, [(k_graphid, PV 10); (k_nodeid, PV 20); (k_class, PV 30)])], []) /\
+  s_extract (sg s) 10 = Some (mkI [(1, [(k_graphid, PV 10); (k_nodeid, PV 20); (k_class, PV 30)])] []) /\
+  snd (s_clone s 10 12) = Ok RUnit /\
+  view (sg (fst (s_clone s 10 12))) 12 = ([(4, [(k_graphid, PV 12); (k_nodeid, PV 20); (k_class, PV 30)])], []) /\
+  view (sg (fst (s_clone s 10 12))) 11 = view (sg s) 11.
+Proof. vm_compute. repeat split. Qed.
